@@ -518,6 +518,10 @@ pub fn run_case(case: &Case) -> CaseOutcome {
 pub struct BatchCase {
     pub bound: Option<u16>,
     pub n: u32,
+    /// every sender is dropped BEFORE the loop dispatches for the first time: the messages and then exactly one Closed
+    /// have to arrive without any further wake-up
+    #[serde(default)]
+    pub drop_first: bool,
 }
 
 fn run_batch(c: &BatchCase) -> CaseOutcome {
@@ -543,7 +547,7 @@ fn run_batch(c: &BatchCase) -> CaseOutcome {
                 tx.send(i).unwrap();
                 sent += 1;
             }
-            viol = drain_and_check(&mut el, sent, &got_closed, Some(Box::new(tx)));
+            viol = drain_and_check(&mut el, sent, &got_closed, Some(Box::new(tx)), c.drop_first);
         }
         Some(b) => {
             let (tx, rx) = sync_channel::<u32>(b as usize);
@@ -560,14 +564,38 @@ fn run_batch(c: &BatchCase) -> CaseOutcome {
                     break;
                 }
             }
-            viol = drain_and_check(&mut el, sent, &got_closed, Some(Box::new(tx)));
+            viol = drain_and_check(&mut el, sent, &got_closed, Some(Box::new(tx)), c.drop_first);
         }
     }
     (info, viol)
 }
 
-fn drain_and_check(el: &mut EventLoop<'static, Vec<u32>>, sent: u32, closed: &std::rc::Rc<std::cell::Cell<u32>>, tx: Option<Box<dyn std::any::Any>>) -> Option<Violation> {
+fn drain_and_check(el: &mut EventLoop<'static, Vec<u32>>, sent: u32, closed: &std::rc::Rc<std::cell::Cell<u32>>, tx: Option<Box<dyn std::any::Any>>, drop_first: bool) -> Option<Violation> {
     let mut got: Vec<u32> = vec![];
+    if drop_first {
+        drop(tx);
+        let needed = sent / 1024 + 3;
+        for _ in 0..needed {
+            el.dispatch(Some(Duration::ZERO), &mut got).expect("dispatch");
+        }
+        let want: Vec<u32> = (0..sent).collect();
+        if got != want {
+            return Some(Violation::new(
+                "C04.stranded",
+                format!("sender dropped before the first dispatch: {} of {} queued messages delivered after {} dispatches without external wake-up (first missing {:?})", got.len(), sent, needed, want.get(got.len())),
+            ));
+        }
+        if closed.get() != 1 {
+            return Some(Violation::new(
+                "C04.closed",
+                format!("sender dropped before the first dispatch with {sent} messages queued: Closed delivered {} times after {needed} dispatches without external wake-up", closed.get()),
+            ));
+        }
+        if el.handle().verif_stats().occupied_slots != 0 {
+            return Some(Violation::new("C04.closed", "channel still in the loop after Closed".to_string()));
+        }
+        return None;
+    }
     // no external wake-up between dispatches: the channel must re-arm itself while work remains
     let needed = sent / 1024 + 2;
     for _ in 0..needed {
@@ -858,11 +886,13 @@ pub fn check(ctx: &CheckCtx) -> Option<Found> {
     // batch limit family (fixed list + random)
     let mut fixed: Vec<BatchCase> = vec![];
     for n in [0u32, 1, 1023, 1024, 1025, 2048, 2049, 3000] {
-        fixed.push(BatchCase { bound: None, n });
+        fixed.push(BatchCase { bound: None, n, drop_first: false });
+        fixed.push(BatchCase { bound: None, n, drop_first: true });
     }
     for b in [0u16, 1, 2, 8, 1023, 1024, 2000] {
         for n in [b as u32, b as u32 + 1, b as u32 + 5] {
-            fixed.push(BatchCase { bound: Some(b), n });
+            fixed.push(BatchCase { bound: Some(b), n, drop_first: false });
+            fixed.push(BatchCase { bound: Some(b), n, drop_first: true });
         }
     }
     for c in &fixed {
@@ -872,7 +902,7 @@ pub fn check(ctx: &CheckCtx) -> Option<Found> {
             return Some(Found { sub: "batch".into(), violation: v, case: serde_json::to_value(c).unwrap(), replay_path: None });
         }
     }
-    let batch_strat = (prop::option::weighted(0.4, 0u16..2100), 0u32..3300).prop_map(|(bound, n)| BatchCase { bound, n });
+    let batch_strat = (prop::option::weighted(0.4, 0u16..2100), prop_oneof![3 => 0u32..3300, 1 => (0u32..4, 0u32..3).prop_map(|(k, d)| (1024 + k * 1025 + d).saturating_sub(1))], any::<bool>()).prop_map(|(bound, n, drop_first)| BatchCase { bound, n, drop_first });
     if let Some(f) = ctx.search("batch", batch_strat, t.pick(300, 6000), 8, None, run_batch) {
         return Some(f);
     }
